@@ -230,8 +230,10 @@ CLAIMED["C05"] = dict(
          "Circuit::validate, have input_gates equal to the sizes of the parameter types (one party per element for a single "
          "array parameter), 161 + size(return type) outputs, and return Val.encode of the value the source semantics compute; "
          "a second stream uses types of 0 bits (two recorded findings); every corpus program that compiles must validate as "
-         "SSA and as register circuit; mutants of generated programs that check.rs accepts must compile without a panic to "
-         "the shape of the types check.rs itself reports; a fourth stream compiles programs whose array sizes, trip counts and parties come from "
+         "SSA and as register circuit; mutants of generated programs that check.rs accepts (and any rule-breaking statement of C17's list that "
+         "should ever be accepted) must compile without a panic to the shape of the types check.rs itself reports; eleven "
+         "hand-written programs with numbers without a suffix typed by a later use (nine are the recorded open finding: they keep "
+         "32 wires); a fourth stream compiles programs whose array sizes, trip counts and parties come from "
          "constants (external values, constant expressions, [x; N], [7; N] with a number without a suffix in a typed position) "
          "with generated constant values: accepted, no compiler panic, valid, input parties and output width as the types with "
          "the sizes filled in require.",
